@@ -1,8 +1,14 @@
 pub mod c01;
+pub mod c02;
+pub mod c03;
 pub mod c07;
+pub mod c08;
+pub mod c09;
+pub mod c10;
+pub mod c16;
 
 use crate::runner::Property;
 
 pub fn all() -> Vec<Box<dyn Property>> {
-    vec![Box::new(c01::C01), Box::new(c07::C07)]
+    vec![Box::new(c01::C01), Box::new(c02::C02), Box::new(c03::C03), Box::new(c07::C07), Box::new(c08::C08), Box::new(c09::C09), Box::new(c10::C10), Box::new(c16::C16)]
 }
